@@ -290,6 +290,7 @@ func deepLocks(root *ssa.Function, d deepInstr) lockset {
 	cur := root
 	entry := lockset{}
 	outer := lockset{}
+	var entered []*ssa.Call
 	for _, call := range d.calls {
 		if call.Parent() != cur {
 			break
@@ -299,6 +300,7 @@ func deepLocks(root *ssa.Function, d deepInstr) lockset {
 		if cal == nil {
 			break
 		}
+		entered = append(entered, call)
 		next := lockset{}
 		for lk, mode := range held {
 			translated := false
@@ -330,6 +332,32 @@ func deepLocks(root *ssa.Function, d deepInstr) lockset {
 		for k, v := range locksIn(d.in.Parent(), entry2)[d.in] {
 			out[k] = v
 		}
+	}
+	// a lock the helper takes on one of its parameters (withLock(&g.m, f): l.Lock(); f(); l.Unlock()) is, in the root's terms,
+	// the lock named by the argument
+	for i := len(entered) - 1; i >= 0; i-- {
+		cal := staticCallee(&entered[i].Call)
+		ren := lockset{}
+		for lk, mode := range out {
+			done := false
+			for k, a := range entered[i].Call.Args {
+				if k >= len(cal.Params) {
+					continue
+				}
+				pn := pname(cal.Params[k])
+				if mi, ok := a.(*ssa.MakeInterface); ok {
+					a = mi.X
+				}
+				if lk == pn || strings.HasPrefix(lk, pn+".") {
+					ren[path(a)+lk[len(pn):]] = mode
+					done = true
+				}
+			}
+			if !done {
+				ren[lk] = mode
+			}
+		}
+		out = ren
 	}
 	for k, v := range outer {
 		out[k] = v
